@@ -138,59 +138,7 @@ def check_config(ctx, F, tag):
            "%d validation failure blocks; aggregate reachable from one: %s" % (len(errk), leak))
 
     # ---------------- R3 composite loaders
-    sl = F.body("<sparse_vector::SparseVector as serialize::Serialize>::load")
-    oks = ok_blocks(sl).get("Ok", [])
-    aggs = [(bi, st) for bi, si, st in sl.stmts() if st["s"] == "assign" and st["rv"]["r"] == "agg" and st["rv"].get("def") == "sparse_vector::SparseVector"]
-    if len(aggs) != 1 or not oks:
-        raise Undecided("SparseVector::load shape")
-    high = root_local(sl, dict(zip(aggs[0][1]["rv"]["fields"], aggs[0][1]["rv"]["ops"]))["high"])
-    for want in ("enable_select", "enable_select_zero"):
-        blocks = [bi for bi, t in sl.calls() if callee_name(t).endswith("::" + want) and root_local_of_ref(sl, t["args"][0]) == high]
-        ok = bool(blocks) and must_pass_through(sl, 0, blocks, to_blocks=oks)
-        ctx.ob("C19.R3.sparse-load-enables", "%s|%s%s" % (sl.name, want, tag), loc(sl.raw["span"]), ok, "must-pass-through",
-               "every path to Ok calls high.%s(): %s" % (want, ok))
-    wl = F.body("<wavelet_matrix::wm_core::WMCore as serialize::Serialize>::load")
-    oks = ok_blocks(wl).get("Ok", [])
-    blocks = [bi for bi, t in wl.calls() if callee_name(t) == "wavelet_matrix::wm_core::WMCore::init_support"]
-    ctx.ob("C19.R3.wm-core-load-enables", wl.name + tag, loc(wl.raw["span"]), bool(blocks) and bool(oks) and must_pass_through(wl, 0, blocks, to_blocks=oks), "must-pass-through",
-           "every path to Ok calls init_support(): %s" % bool(blocks))
-    ib = F.body("wavelet_matrix::wm_core::WMCore::init_support")
-    called = {callee_name(t).split("::")[-1] for _, t in ib.calls()}
-    loop = ib.loop_blocks()
-    inloop = {callee_name(t).split("::")[-1] for bi, t in ib.calls() if bi in loop}
-    need = {"enable_rank", "enable_select", "enable_select_zero"}
-    # each enable is reached on every iteration: from the Some arm of the iterator's next() the loop head is not reachable without it
-    heads = [bi for bi, t in ib.calls() if callee_written(t) == "std::iter::Iterator::next" and bi in loop]
-    every = len(heads) == 1
-    if every:
-        h = heads[0]
-        sw = ib.blocks[ib.blocks[h]["term"]["target"]]["term"]
-        some = [d for v, d in sw.get("targets", []) if int(v) == 1]
-        every = len(some) == 1
-        for want in need:
-            cb = [bi for bi, t in ib.calls() if callee_name(t).split("::")[-1] == want]
-            if every and h in ib.reach_from(some, avoid=cb):
-                every = False
-    ctx.ob("C19.R3.init-support-enables-all", ib.name + tag, loc(ib.raw["span"]), every and need <= inloop and any(self_path(x) == ["levels"] for _, t in ib.calls() for x in subterms(ib.term_of_operand(t["args"][0])) if t["args"]),
-           "call-set", "init_support enables %s for every level of self.levels" % sorted(inloop & (need | {"enable_pred_succ"})))
-    for fn in [n for n in F.bodies if n.startswith("<wavelet_matrix::wm_core::WMCore as std::convert::From<std::vec::Vec<")]:
-        b = F.body(fn)
-        blocks = [bi for bi, t in b.calls() if callee_name(t) == "wavelet_matrix::wm_core::WMCore::init_support"]
-        ctx.ob("C19.R3.wm-core-from-enables", fn + tag, loc(b.raw["span"]), bool(blocks) and must_pass_through(b, 0, blocks), "must-pass-through", "From<Vec<_>> calls init_support on every path", nontrivial=False)
-        ctx.count("wm-core-from-impls" + tag)
-    ctx.floor("wm-core-from-impls" + tag, 5)
-    rl = F.body("<rl_vector::RLVector as serialize::Serialize>::load")
-    aggs = [(bi, st) for bi, si, st in rl.stmts() if st["s"] == "assign" and st["rv"]["r"] == "agg" and st["rv"].get("def") == "rl_vector::RLVector"]
-    ok = len(aggs) == 1
-    detail = ""
-    if ok:
-        ops = dict(zip(aggs[0][1]["rv"]["fields"], aggs[0][1]["rv"]["ops"]))
-        for f in ("rank_index", "select_index", "select_zero_index"):
-            t = core(rl.term_of_operand(ops[f]))
-            good = t[0] == "call" and t[1].startswith("rl_vector::index::SampleIndex::new")
-            ok = ok and good
-            detail += "%s<-%s; " % (f, tstr(t)[:50])
-    ctx.ob("C19.R3.rl-load-rebuilds-indexes", rl.name + tag, loc(rl.raw["span"]), ok, "term-provenance", detail)
+    check_composite_loaders(ctx, F, tag, "C19.R3")
 
     # ---------------- R4 skip_option
     sk = F.body("serialize::skip_option")
@@ -223,3 +171,61 @@ def root_local_of_ref(b, o):
     if r is None:
         return None
     return root_local(b, {"l": r, "p": []})
+
+
+def check_composite_loaders(ctx, F, tag, prefix):
+    """Loaders of structures that embed plain bitvectors enable/rebuild what their queries use on every Ok path."""
+    sl = F.body("<sparse_vector::SparseVector as serialize::Serialize>::load")
+    oks = ok_blocks(sl).get("Ok", [])
+    aggs = [(bi, st) for bi, si, st in sl.stmts() if st["s"] == "assign" and st["rv"]["r"] == "agg" and st["rv"].get("def") == "sparse_vector::SparseVector"]
+    if len(aggs) != 1 or not oks:
+        raise Undecided("SparseVector::load shape")
+    high = root_local(sl, dict(zip(aggs[0][1]["rv"]["fields"], aggs[0][1]["rv"]["ops"]))["high"])
+    for want in ("enable_select", "enable_select_zero"):
+        blocks = [bi for bi, t in sl.calls() if callee_name(t).endswith("::" + want) and root_local_of_ref(sl, t["args"][0]) == high]
+        ok = bool(blocks) and must_pass_through(sl, 0, blocks, to_blocks=oks)
+        ctx.ob(prefix + ".sparse-load-enables", "%s|%s%s" % (sl.name, want, tag), loc(sl.raw["span"]), ok, "must-pass-through",
+               "every path to Ok calls high.%s(): %s" % (want, ok))
+    wl = F.body("<wavelet_matrix::wm_core::WMCore as serialize::Serialize>::load")
+    oks = ok_blocks(wl).get("Ok", [])
+    blocks = [bi for bi, t in wl.calls() if callee_name(t) == "wavelet_matrix::wm_core::WMCore::init_support"]
+    ctx.ob(prefix + ".wm-core-load-enables", wl.name + tag, loc(wl.raw["span"]), bool(blocks) and bool(oks) and must_pass_through(wl, 0, blocks, to_blocks=oks), "must-pass-through",
+           "every path to Ok calls init_support(): %s" % bool(blocks))
+    ib = F.body("wavelet_matrix::wm_core::WMCore::init_support")
+    called = {callee_name(t).split("::")[-1] for _, t in ib.calls()}
+    loop = ib.loop_blocks()
+    inloop = {callee_name(t).split("::")[-1] for bi, t in ib.calls() if bi in loop}
+    need = {"enable_rank", "enable_select", "enable_select_zero"}
+    # each enable is reached on every iteration: from the Some arm of the iterator's next() the loop head is not reachable without it
+    heads = [bi for bi, t in ib.calls() if callee_written(t) == "std::iter::Iterator::next" and bi in loop]
+    every = len(heads) == 1
+    if every:
+        h = heads[0]
+        sw = ib.blocks[ib.blocks[h]["term"]["target"]]["term"]
+        some = [d for v, d in sw.get("targets", []) if int(v) == 1]
+        every = len(some) == 1
+        for want in need:
+            cb = [bi for bi, t in ib.calls() if callee_name(t).split("::")[-1] == want]
+            if every and h in ib.reach_from(some, avoid=cb):
+                every = False
+    ctx.ob(prefix + ".init-support-enables-all", ib.name + tag, loc(ib.raw["span"]), every and need <= inloop and any(self_path(x) == ["levels"] for _, t in ib.calls() for x in subterms(ib.term_of_operand(t["args"][0])) if t["args"]),
+           "call-set", "init_support enables %s for every level of self.levels" % sorted(inloop & (need | {"enable_pred_succ"})))
+    for fn in [n for n in F.bodies if n.startswith("<wavelet_matrix::wm_core::WMCore as std::convert::From<std::vec::Vec<") and n.endswith(">::from")]:
+        b = F.body(fn)
+        blocks = [bi for bi, t in b.calls() if callee_name(t) == "wavelet_matrix::wm_core::WMCore::init_support"]
+        ctx.ob(prefix + ".wm-core-from-enables", fn + tag, loc(b.raw["span"]), bool(blocks) and must_pass_through(b, 0, blocks), "must-pass-through", "From<Vec<_>> calls init_support on every path", nontrivial=False)
+        ctx.count("wm-core-from-impls" + tag)
+    ctx.floor("wm-core-from-impls" + tag, 5)
+    rl = F.body("<rl_vector::RLVector as serialize::Serialize>::load")
+    aggs = [(bi, st) for bi, si, st in rl.stmts() if st["s"] == "assign" and st["rv"]["r"] == "agg" and st["rv"].get("def") == "rl_vector::RLVector"]
+    ok = len(aggs) == 1
+    detail = ""
+    if ok:
+        ops = dict(zip(aggs[0][1]["rv"]["fields"], aggs[0][1]["rv"]["ops"]))
+        for f in ("rank_index", "select_index", "select_zero_index"):
+            t = core(rl.term_of_operand(ops[f]))
+            good = t[0] == "call" and t[1].startswith("rl_vector::index::SampleIndex::new")
+            ok = ok and good
+            detail += "%s<-%s; " % (f, tstr(t)[:50])
+    ctx.ob(prefix + ".rl-load-rebuilds-indexes", rl.name + tag, loc(rl.raw["span"]), ok, "term-provenance", detail)
+
